@@ -334,3 +334,155 @@ def weights_of(solver_or_transform, spec):
     ow = sc.obj_weight
     ow = int(np.asarray(ow).reshape(-1)[0]) if np.ndim(ow) else int(ow)
     return np.asarray(sc.var_weights, dtype=int), np.asarray(sc.cons_weights, dtype=int), ow
+
+
+# ------------------------------------------------------------------------------------------------
+# Special families
+# ------------------------------------------------------------------------------------------------
+
+
+@st.composite
+def infeasible_spec(draw, max_n=4):
+    """Problems with no feasible point (three constructions)."""
+    n = draw(st.integers(1, max_n))
+    kind = draw(st.sampled_from(["inconsistent_rows", "sphere_plus_one", "unreachable_in_box"]))
+    L = np.tril(np.array(dmat(draw, n, n, -8, 8, 8.0)))
+    Q = (L @ L.T + np.eye(n)).tolist()
+    spec = {"n": n, "Q": Q, "q": dvec(draw, n), "family": "infeasible:" + kind}
+    if kind == "inconsistent_rows":
+        a = dvec(draw, n)
+        if not any(a):
+            a[0] = 1.0
+        gap = draw(st.sampled_from([0.5, 1.0, 4.0]))
+        extra = draw(st.integers(0, 1))
+        spec["m"] = 2 + extra
+        spec["A"] = [a, a] + ([dvec(draw, n)] if extra else [])
+        spec["b"] = [0.0] * spec["m"]
+        spec["cl"] = [gap, -gap] + ([-INF] if extra else [])
+        spec["cu"] = [gap, -gap] + ([2.0] if extra else [])
+        spec["lb"], spec["ub"] = draw(var_bounds(n, kinds=("free", "lower", "boxed")))
+    elif kind == "sphere_plus_one":
+        spec["m"] = 1
+        spec["A"] = [[0.0] * n]
+        spec["Hc"] = [np.eye(n).tolist()]
+        spec["b"] = [-draw(st.sampled_from([0.5, 1.0, 3.0]))]
+        rk = draw(st.sampled_from(["eq0", "upper"]))
+        spec["cl"] = [0.0 if rk == "eq0" else -INF]
+        spec["cu"] = [0.0]
+        spec["lb"], spec["ub"] = draw(var_bounds(n, kinds=("free", "lower", "upper", "boxed")))
+    else:
+        a = dvec(draw, n, 1, 16)
+        spec["m"] = 1
+        spec["A"] = [a]
+        spec["b"] = [0.0]
+        lb = [-(draw(st.integers(0, 8)) / 8.0) for _ in range(n)]
+        ub = [(draw(st.integers(0, 8)) / 8.0) for _ in range(n)]
+        reach = float(np.dot(a, ub))
+        rk = draw(st.sampled_from(["lower", "eqnz", "ranged"]))
+        lo = reach + draw(st.sampled_from([0.5, 1.0, 8.0]))
+        spec["cl"] = [lo]
+        spec["cu"] = [INF if rk == "lower" else (lo if rk == "eqnz" else lo + 1.0)]
+        spec["lb"], spec["ub"] = lb, ub
+    spec["fmt"] = draw(FMT)
+    return spec
+
+
+@st.composite
+def unbounded_spec(draw, max_n=4):
+    """Objective unbounded below along a feasible ray."""
+    n = draw(st.integers(1, max_n))
+    kind = draw(st.sampled_from(["linear", "concave"]))
+    q = dvec(draw, n)
+    if not any(q):
+        q[0] = -1.0
+    spec = {"n": n, "q": q, "family": "unbounded:" + kind}
+    if kind == "linear":
+        spec["Q"] = np.zeros((n, n)).tolist()
+    else:
+        d = [-(draw(st.integers(0, 8)) / 8.0) for _ in range(n)]
+        spec["Q"] = np.diag(d).tolist()
+    # bounds never block the descent direction -q
+    lb, ub = [], []
+    for j in range(n):
+        if q[j] > 0:  # x_j -> -inf
+            lb.append(-INF)
+            ub.append(draw(st.sampled_from([INF, 1.0, 4.0])))
+        elif q[j] < 0:
+            lb.append(draw(st.sampled_from([-INF, -1.0, -4.0])))
+            ub.append(INF)
+        else:
+            lb.append(draw(st.sampled_from([-INF, -1.0])))
+            ub.append(draw(st.sampled_from([INF, 1.0])))
+    spec["lb"], spec["ub"] = lb, ub
+    m = draw(st.integers(0, 1))
+    spec["m"] = m
+    if m:
+        # a row orthogonal-ish to the ray: a'x <= big one-sided in the harmless direction
+        a = [(-1.0 if t > 0 else (1.0 if t < 0 else 0.0)) * draw(st.integers(0, 8)) / 8.0 for t in q]
+        spec["A"] = [a]
+        spec["b"] = [0.0]
+        spec["cl"] = [draw(st.sampled_from([-1.0, 0.0, -INF]))]
+        spec["cu"] = [INF]
+        if spec["cl"][0] == -INF:
+            spec["cl"] = [-2.0]
+    else:
+        spec["A"], spec["b"], spec["cl"], spec["cu"] = [], [], [], []
+    spec["fmt"] = draw(FMT)
+    return spec
+
+
+@st.composite
+def degenerate_spec(draw, max_n=4):
+    kind = draw(st.sampled_from(["all_fixed", "n1", "m0", "duplicate_rows", "lp_box", "zero_row"]))
+    if kind == "n1":
+        base = draw(nlp_spec(max_n=1, max_m=2))
+    elif kind == "m0":
+        base = draw(nlp_spec(max_n=max_n, max_m=0))
+    else:
+        base = draw(nlp_spec(max_n=max_n, max_m=2, min_m=1 if kind in ("duplicate_rows", "zero_row") else 0, nonlinear=draw(st.booleans())))
+    n, m = base["n"], base["m"]
+    if kind == "all_fixed":
+        xf = base["xf"]
+        base["lb"], base["ub"] = list(xf), list(xf)
+    elif kind == "duplicate_rows" and m >= 1:
+        for k in ("A", "b", "cl", "cu", "u", "T", "Hc"):
+            if k in base and base[k] is not None:
+                base[k] = list(base[k]) + [base[k][0]]
+        base["m"] = m + 1
+    elif kind == "lp_box":
+        base["Q"] = np.zeros((n, n)).tolist()
+        base.pop("w", None), base.pop("v", None)
+        lb, ub = draw(var_bounds(n, kinds=("boxed", "fixed"), center=base["xf"]))
+        base["lb"], base["ub"] = lb, ub
+    elif kind == "zero_row" and m >= 1:
+        base["A"][0] = [0.0] * n
+        base.pop("Hc", None), base.pop("u", None), base.pop("T", None)
+        # 0 = c_0(x) - b_0 ; keep it feasible: bounds around -b_0
+        b0 = Ref(base).c(np.zeros(n))[0]
+        if base["cl"][0] == base["cu"][0]:
+            base["cl"][0] = base["cu"][0] = float(b0)
+        else:
+            base["cl"][0] = float(b0) - 1.0 if np.isfinite(base["cl"][0]) else -INF
+            base["cu"][0] = float(b0) + 1.0 if np.isfinite(base["cu"][0]) else INF
+    base["family"] = "degenerate:" + kind
+    return base
+
+
+@st.composite
+def any_spec(draw, families=("nlp", "qp", "degenerate"), max_n=5, max_m=3):
+    fam = draw(st.sampled_from(families))
+    if fam == "nlp":
+        s = draw(nlp_spec(max_n=max_n, max_m=max_m))
+        s.setdefault("family", "nlp")
+    elif fam == "qp":
+        s = draw(qp_convex_spec(max_n=max_n, max_m=max_m))
+        s.setdefault("family", "qp")
+    elif fam == "degenerate":
+        s = draw(degenerate_spec(max_n=max_n))
+    elif fam == "infeasible":
+        s = draw(infeasible_spec(max_n=min(max_n, 4)))
+    elif fam == "unbounded":
+        s = draw(unbounded_spec(max_n=min(max_n, 4)))
+    else:
+        raise ValueError(fam)
+    return s
